@@ -160,8 +160,12 @@ def judge(case, lines, verdicts, spec_map):
     oi = 1
     sweep_before, sweep_after = [], []
     map_before = map_after = None
+    after_o = False     # reads that follow a flush + reopen with no write in between belong to C02 as well
     for pi, p in enumerate(plan):
+        if p['k'] in ('W', 'D'):
+            after_o = False
         if p['k'] == 'O':
+            after_o = 'reopen_params' not in p
             if oi >= len(opens):
                 finds.append(('api', pi, 'missing open result'))
                 break
@@ -199,6 +203,9 @@ def judge(case, lines, verdicts, spec_map):
                 finds.append(('read', pi, '%s block %d (guest block %d): got %s want %s (%d blocks differ)%s' % (
                     hist.op_line(p['op']), i, p['op'][1] // 512 + i, vals[i], exp[i], len(bad),
                     ' [sweep %s]' % p['sweep'] if 'sweep' in p else '')))
+                if after_o and 'sweep' not in p:
+                    finds.append(('reopen', pi, 'right after flush_meta + reopen: %s block %d reads %s, the device before the reopen held %s' % (
+                        hist.op_line(p['op']), p['op'][1] // 512 + i, vals[i], exp[i])))
             if p.get('sweep') == 'before':
                 sweep_before.extend(vals)
             elif p.get('sweep') == 'after':
@@ -244,6 +251,22 @@ def gen_cases(rng, n, nops, prefix, cbs=None, mix=None):
     for i in range(n):
         g = hist.rand_geom(rng, cbs=cbs)
         ops = hist.gen_ops(rng, g, rng.randrange(3, nops + 1), mix=mix)
+        if i % 8 == 5:
+            # two regions whose L1 entries live in different 512-byte blocks of the L1 table: a flushed L2 table gets
+            # another mapping (dirty slice, clean L1 block) while a new L2 table is created far away (dirty L1 block);
+            # then exactly one flush_meta before the reopen
+            cb = rng.choice([9, 9, 10])
+            cs = 1 << cb
+            per_l1 = (cs // 8) * cs                # guest bytes per L1 entry
+            far = per_l1 * 64 * rng.choice([1, 2, 3]) + rng.randrange(0, 8) * cs
+            g = hist.Geom(cb, rng.choice([2, 4, 6]), far + 64 * cs, 9, (9, rng.choice([2, 8]) << 9), (9, rng.choice([2, 8]) << 9), punch=1)
+            near = rng.randrange(0, 8) * cs
+            near2 = near + (1 + rng.randrange(0, 8)) * cs
+            ops = [('W', near, cs, 1), ('F',), ('W', near2, rng.choice([512, cs]), 2), ('W', far, rng.choice([512, cs]), 3)]
+            if rng.random() < 0.5:
+                ops.insert(2, ('W', far + 9 * cs, 512, 4))
+            # one flush, reopen at once (no sweep in between that would evict and write back), read the regions
+            ops += [('F',), ('O', g.params()), ('R', near2, cs), ('R', far, cs), ('R', near, cs)]
         cid = '%s%d' % (prefix, i)
         text, plan, snaps, flat = build_case(cid, g, ops, rng)
         cases.append({'cid': cid, 'g': g, 'ops': ops, 'text': text, 'plan': plan, 'snaps': snaps})
